@@ -18,6 +18,8 @@ def check(model, R, tier):
     check_fwd(model, R, ops)
     check_buffer(model, R, ops)
     check_matches_shape(model, R)
+    from sa import rules_hygiene as _H
+    _H.check_global_state(model, R, 'C10', modules=('synapgrad.cpu_ops', 'synapgrad.conv_tools', 'synapgrad.functional', 'synapgrad.nn.functional'))
     return dict(
         explanation='Decides (a) the constructor path taken by NumPy scalar results (full reductions, element indexing, 0-d ufunc results) keeps the value\'s own dtype and uses the '
                     'module default only for dtype-less Python data; (b) by dtype-provenance abstract interpretation under NumPy-2 promotion, the value returned by every forward kernel '
